@@ -1,7 +1,7 @@
 (* C01 — An address is never leased to two clients at the same time.  Statements only. *)
 From PSA Require Import model.Bytes model.Clients model.Ipdb model.Dhcp spec.SpecTable spec.SpecIpdb model.Server spec.Monitors
   proofs.TableProofs proofs.LeaseProofs proofs.ServerProofs.
-From PSA Require Import spec.WireHyps spec.WireExample proofs.WireProofs proofs.WireInv proofs.WireLease proofs.WireHypsProofs proofs.WireExampleProofs.
+From PSA Require Import spec.WireHyps spec.WireExample proofs.WireProofs proofs.WireInv proofs.WireLease proofs.WireHypsProofs proofs.WireExampleProofs spec.WireExample2 proofs.WireExample2Proofs.
 Open Scope N_scope.
 
 (* Every execution of the server, whatever the interleaving of its handlers, is a history of the atomic
@@ -75,6 +75,12 @@ Theorem C01_wire_nonvacuous : exists c h, wire_example = Some (c, h) /\
   accepted c h /\ length h = 6%nat /\ length (events c h) = 2%nat /\ length (flat_map r_outs h) = 3%nat.
 Proof. exact wire_example_premises. Qed.
 Print Assumptions C01_wire_nonvacuous.
+
+(* ... and of a history in which two clients compete for one address and time decides (spec/WireExample2.v) *)
+Theorem C01_wire_nonvacuous_two_clients : exists c h, wire_example2 = Some (c, h) /\ wire_premises c h /\ accepted c h /\
+  length h = 7%nat /\ length (events c h) = 4%nat /\ distinct_pids (events c h) = 2%nat /\ length (flat_map r_outs h) = 6%nat.
+Proof. exact wire_example2_full. Qed.
+Print Assumptions C01_wire_nonvacuous_two_clients.
 
 Example C01_nonvacuous :
   let x := {| net_from := 10; net_to := 20; dyn_from := 12; dyn_to := 13; st := empty_store |} in
